@@ -171,6 +171,8 @@ def next_aligned(n, a):
 
 ALIGN_OF = {"1x1": 1, "2x2": 2, "3x1": 1, "8x8": 8, "24x8": 8, "16x16": 16, "64x64": 64, "2048x8": 8, "u8": 1}
 
+OUTCOME_OPS = {"C01": None, "C11": None, "C14": {"rawrt"}}
+
 def finding_class(pid, line):
     """classes of recorded known findings a history falls into (computed from the history text)"""
     cls = hrun.header(line).get("cls", "8x8").rstrip("c")
@@ -384,6 +386,14 @@ def run(ctx, P, cs):
                 key = "%s:%s" % (mm["op"], "+".join(mm["fields"]))
                 elsewhere[key] = elsewhere.get(key, 0) + 1
                 mm = None
+        # The operation itself ends differently -- the model returns where the implementation panics, or
+        # the other way round -- at an operation whose OUTCOME is what the property states (C01: a call
+        # panics exactly when the list operation is undefined; C11: an out-of-range argument is rejected,
+        # an in-range one is not; C14: the raw round trip gives the vector back): the history is a failing
+        # input, not just a trace the model no longer describes.
+        if mm and not vs and pid in OUTCOME_OPS and sorted(mm.get("out_pair") or []) == ["ok", "panic"] and \
+           (OUTCOME_OPS[pid] is None or mm.get("op") in OUTCOME_OPS[pid]):
+            vs = ["outcome_differs:%s@%s:model=%s:impl=%s" % (mm.get("op"), mm.get("at"), mm["out_pair"][0], mm["out_pair"][1])]
         if vs or (mm and mm.get("model_fatal")):
             viol.append({"tag": "monitor_" + hrun.hid(l) + prof, "kind": "property fails on the implementation" if vs else "the model reaches undefined behaviour / a hang on this history",
                          "profile": prof, "history": l, "verdicts": vs, "fate": res["fate"], "mismatch": mm,
